@@ -324,6 +324,12 @@ def stepH (st : St) (cur : Progress) (m : Msg) (key : VKey) (x : Chain) (pre : B
   | [c1, cv, cjv, e1, e2, vw, vf, two, shape] =>
     let comt := st.comt
     let pm : PMsg := ⟨m, key⟩
+    let placeholders := chainValid m.vote.value &&
+      (match m.just with | some j => chainValid j.vote.value | none => true)
+    -- purely on the implementation's observations: both arrival orders of chain and message agree
+    if st.mode != "c05" && c1 = "1" && !key.isZero && placeholders && two != "pending" && two != vf then
+      (st, .oracle s!"HOSTFLOW-PATHS-DIFFER chain known before the message (CompleteMessage + ValidateMessage) says {vf}, chain discovered after it (partial, completion, full) says {two}")
+    else
     match completeMessage (storeOf pre x) pm with
     | some cm0 =>
       let js (j : Option Just) : String := match j with | some j => chainStr j.vote.value | none => "-"
@@ -338,12 +344,7 @@ def stepH (st : St) (cur : Progress) (m : Msg) (key : VKey) (x : Chain) (pre : B
         let st' := { st with cache := rw.2 }
         let orc := firstSome [
           (if vw != vf && st.mode != "c13" then some s!"HISTORY-DEPENDENT warm validator says {vw}, fresh validator says {vf}" else none),
-          c05Oracle st cur cmsg "warm" vw, c05Oracle st cur cmsg "fresh" vf,
-          (let placeholders := chainValid m.vote.value &&
-              (match m.just with | some j => chainValid j.vote.value | none => true)
-           if st.mode != "c05" && !key.isZero && placeholders && two != "pending" && two != vf then
-             some s!"HOSTFLOW-PATHS-DIFFER chain known before the message (CompleteMessage + ValidateMessage) says {vf}, chain discovered after it (partial, completion, full) says {two}"
-           else none)]
+          c05Oracle st cur cmsg "warm" vw, c05Oracle st cur cmsg "fresh" vf]
         match orc with
         | some msg => (st', .oracle msg)
         | none =>
